@@ -22,16 +22,16 @@ func init() {
 	}
 	fl := []string{"pebble-plain", "pebble-batched", "tan", "tan-multiplexed"}
 	for _, f := range fl {
-		addStages("C10", "exploration", nil,
+		addStages("C10", "fault_enumeration", nil,
 			Stage{Engine: "storecheck", Mode: "crash-" + f, BatchesQ: 16, BatchesT: 32, Par: 16, TimeoutQ: 300, TimeoutT: 3000})
 	}
 	for _, f := range fl {
-		addStages("C10", "exploration", nil,
+		addStages("C10", "fault_enumeration", nil,
 			Stage{Engine: "storecheck", Mode: "errfs-" + f, BatchesQ: 16, BatchesT: 32, Par: 16, TimeoutQ: 600, TimeoutT: 3000})
 	}
 	for _, f := range fl[:2] {
-		addStages("C10", "exploration", nil,
+		addStages("C10", "fault_enumeration", nil,
 			Stage{Engine: "storecheck", Mode: "errkv-" + f, BatchesQ: 16, BatchesT: 32, Par: 16, TimeoutQ: 600, TimeoutT: 3000})
 	}
-	addStages("C10", "exploration", c10)
+	addStages("C10", "fault_enumeration", c10)
 }
